@@ -2,8 +2,12 @@ PROPS["C14"] = dict(
     jobs=[
         job("direct", "c14_apbp", cases={Q: 300, T: 60000}, mode="direct"),
         job("facade", "c14_apbp", cases={Q: 20, T: 1500}, mode="facade"),
+        job("reentrant", "c14_reentrant", cases={Q: 30, T: 1500}),
     ],
-    rule="random single-threaded histories (direct 200 ops, facade 600 ops on a fresh Teakra each). direct: two real Apbp objects (SendData/RecvData/PeekData/SetDisableInterrupt/"
+    rule="reentrant job: 200-op histories on a fresh Teakra whose host semaphore handler calls back into the API (acknowledge all / a "
+         "subset / look only / acknowledge and re-mask); after every operation S' (0x0D8 bit 9) must equal (semaphore & ~mask) != 0 "
+         "on the values read back, and a rise without a handler call is a missed interrupt. Other jobs: "
+         "random single-threaded histories (direct 200 ops, facade 600 ops on a fresh Teakra each). direct: two real Apbp objects (SendData/RecvData/PeekData/SetDisableInterrupt/"
          "Set|Clear|MaskSemaphore/handler replacement). facade: one Teakra; CPU side through the host API, DSP side through MMIO "
          "0x0C0-0x0D8 (REPLY write/peek, CMD read, SET/MASK/ACK/GET_SEMAPHORE, 0x0D4 disable bits, writes to read-only registers), "
          "DSP interrupt = ICU request bit 14 (0x200, acknowledged through 0x202), host interrupts = handler logs. After EVERY op all "
